@@ -33,6 +33,22 @@ def pyListGet (l : List Int) (i : Int) : Int :=
   if i < 0 then l.getD (l.length - i.natAbs) 0 else l.getD i.toNat 0
 def pyListTake (l : List Int) (i : Int) : List Int :=
   if i < 0 then l.take (l.length - i.natAbs) else l.take i.toNat
+def pyListDrop (l : List Int) (i : Int) : List Int :=
+  if i < 0 then l.drop (l.length - i.natAbs) else l.drop i.toNat
+/-- a slice bound on an axis of length `n`: negative counts from the end, everything clamped into `[0, n]` -/
+def pyClampIdx (n : Nat) (i : Int) : Nat := if i < 0 then n - i.natAbs else min i.toNat n
+/-- numpy `x[lo:hi] = e` on a 1-D array (`hi = none`: to the end). `none` = ValueError: the shapes differ and `e` is not a
+single element (which numpy would broadcast over the slice) -/
+def pySliceStore (x : List Int) (lo : Int) (hi : Option Int) (e : List Int) : Option (List Int) :=
+  let n := x.length
+  let a := pyClampIdx n lo
+  let b := match hi with
+    | none => n
+    | some h => pyClampIdx n h
+  let len := b - a
+  if e.length = len then some (x.take a ++ e ++ x.drop (a + len))
+  else if e.length = 1 then some (x.take a ++ List.replicate len (e.headD 0) ++ x.drop (a + len))
+  else none
 /-- the same for lists of booleans / floats (per-neighbour masks, weights and values; an index out of range reads False / 0) -/
 def pyListGetB (l : List Bool) (i : Int) : Bool :=
   if i < 0 then l.getD (l.length - i.natAbs) false else l.getD i.toNat false
